@@ -92,6 +92,15 @@ func (p *pipeline) executeStage(parentStageID string, stage stagepkg.Stage) {
 	stageID := uuid.New().String()
 	p.sm.executeStage(parentStageID, stageID, stage)
 
+	defer func() {
+		// a stage without a worker pool runs on the goroutine that plans it: if it panics, none of its
+		// handlers is ever invoked, so complete it here, else the pipeline waits for this stage for ever.
+		if r := recover(); r != nil {
+			err := errorpkg.Error(r)
+			p.logger.Error("execute query stage panic", logger.Error(err), logger.Stack())
+			p.sm.completeStage(stageID, err)
+		}
+	}()
 	stage.Execute(stage.Plan(), func() {
 		// after current stage execute completed, then plan next stages
 		nextStages := stage.NextStages()
